@@ -45,6 +45,8 @@ def run(rec, cfg):
     rng = cfg.rng("c01")
     rules = RC.with_flippers(MR.rule_instances())
     n = cfg.scale(260, 30000)
+    if cfg.shard == 5 % cfg.nshards:
+        RC.wide_ints(rec, rules)
     for src, text, hints in RC.start_texts(cfg, rng, n, equations=0.15):
         if cfg.out_of_time():
             rec.truncated = True
